@@ -6,7 +6,6 @@ import (
 	"runtime"
 	"testing"
 
-	"github.com/google/uuid"
 	"github.com/semafind/semadb/models"
 	"github.com/semafind/semadb/shard/cache"
 	"pgregory.net/rapid"
@@ -84,6 +83,8 @@ func genCase(t *rapid.T) Case {
 	so := gen.SchemaOpts{Filters: rapid.Bool().Draw(t, "withFilters"), Text: true}
 	ho := gen.HistoryOpts{MaxSteps: 10, MaxBatch: 10, PoolSize: rapid.SampledFrom([]int{8, 24}).Draw(t, "pool"),
 		AllowRejected: rapid.IntRange(0, 4).Draw(t, "allowRejected") == 0, Reopen: true, Evict: true, FieldProb: rapid.SampledFrom([]int{50, 85, 100}).Draw(t, "fieldProb")}
+	// the same id more than once in one update batch (merged in order; the indices must see the net change)
+	ho.AllowDupUpdate = rapid.IntRange(0, 3).Draw(t, "dupUpdate") == 0
 	nq := 5
 	if vt.Thorough() {
 		ho.MaxSteps, ho.MaxBatch, nq = 20, 40, 8
@@ -254,56 +255,3 @@ func execCase(c Case) (res vt.Result) {
 
 func TestPropText(t *testing.T)   { vt.Check(t, "text", genCase, execCase) }
 func TestReplayText(t *testing.T) { vt.Replay(t, "text", execCase) }
-
-// ---------------------------------------------------------------------------
-// Probe of the catalogued defect D10: one update batch naming the same id twice
-// with different texts reaches the text index through parallel analysers and
-// may be applied out of order. The probe has a fixed shape; if the defect is
-// observed it is reported as the known finding, never as a new violation.
-
-func TestPropD10Probe(t *testing.T) {
-	rec := vt.R()
-	schema := models.IndexSchema{gen.PText: {Type: models.IndexTypeText, Text: &models.IndexTextParameters{Analyser: "standard"}}}
-	id := uuid.MustParse("00000000-0000-4000-8000-000000000001")
-	trials := 300
-	for trial := 0; trial < trials; trial++ {
-		dir, cleanup := drive.CaseDir()
-		s, err := drive.Open(filepath.Join(dir, "d.bbolt"), schema, 1<<20, cache.NewManager(-1))
-		if err != nil {
-			cleanup()
-			t.Fatal(err)
-		}
-		m := model.NewCollection(schema, 1<<20)
-		ins := []model.Point{{Id: id, Doc: model.Doc{gen.PText: "frodo"}}}
-		m.Insert(ins)
-		if err := s.Insert(ins); err != nil {
-			t.Fatal(err)
-		}
-		upd := []model.Point{{Id: id, Doc: model.Doc{gen.PText: "gandalf wizard"}}, {Id: id, Doc: model.Doc{gen.PText: "ring"}}}
-		m.Update(upd)
-		if _, err := s.Update(upd); err != nil {
-			t.Fatal(err)
-		}
-		rec.Eval()
-		observed := false
-		for _, term := range []string{"ring", "gandalf"} {
-			q := oracle.TextQuery{Value: term, Operator: models.OperatorContainsAll, Limit: 10}
-			rows, err := s.Search(models.SearchRequest{Query: q.ToQuery()})
-			if err != nil {
-				observed = true
-				break
-			}
-			if _, err := oracle.CheckText(m, q, rows); err != nil {
-				observed = true
-			}
-		}
-		s.Close()
-		cleanup()
-		if observed {
-			rec.Known("D10", "update batch naming one id twice: text index applied out of order", fmt.Sprintf("observed in trial %d", trial))
-			rec.Count("d10_trials_until_observed", int64(trial+1))
-			return
-		}
-	}
-	rec.Count("d10_not_observed_in_trials", int64(trials))
-}
